@@ -24,6 +24,7 @@ import (
 
 type errSite struct {
 	fn     *ssa.Function
+	start  ssa.Instruction // analysis starts after this instruction (the call, or a load of a captured error variable)
 	call   ssa.CallInstruction
 	callee *types.Func // static callee or interface method
 	errVal ssa.Value   // the error result
@@ -36,6 +37,8 @@ type errVerdict struct {
 	pos    token.Pos
 	// the classifier's exception types, if any (names of globals passed as first arg)
 	classes []string
+	// captured variable (address value) the error was stored into, when kind == "stored"
+	storedTo ssa.Value
 }
 
 // moduleFunctions returns every SSA function (including closures) of the module's packages.
@@ -277,10 +280,14 @@ func (a *errAnalyzer) analyse(s *errSite) errVerdict {
 		}
 	}
 	// path exploration from the instruction after the call
-	startBlock := s.call.Block()
+	startInstr := s.start
+	if startInstr == nil {
+		startInstr = s.call.(ssa.Instruction)
+	}
+	startBlock := startInstr.Block()
 	startIdx := 0
 	for i, in := range startBlock.Instrs {
-		if in == s.call.(ssa.Instruction) {
+		if in == startInstr {
 			startIdx = i + 1
 		}
 	}
@@ -290,6 +297,7 @@ func (a *errAnalyzer) analyse(s *errSite) errVerdict {
 		why  string
 	}
 	var results []result
+	var storedTo ssa.Value
 	paths := 0
 	var classes []string
 	sawClassifier := false
@@ -310,9 +318,19 @@ func (a *errAnalyzer) analyse(s *errSite) errVerdict {
 						carries = true
 					}
 				}
+				otherErr := false
+				for _, r := range x.Results {
+					if isErrorType(r.Type()) {
+						if rr := env.resolve(r); !isNilConst(rr) && rr != s.errVal && !alias[rr] {
+							otherErr = true
+						}
+					}
+				}
 				switch {
 				case carries:
 					results = append(results, result{"returns-err", x.Pos(), ""})
+				case state == 1 && otherErr:
+					results = append(results, result{"replaced", x.Pos(), "a different error is returned in its place"})
 				case state == 1:
 					results = append(results, result{"swallowed", x.Pos(), "returns without the error on a path where it is a non-nil, non-terminating exception"})
 				case state == 0:
@@ -325,6 +343,15 @@ func (a *errAnalyzer) analyse(s *errSite) errVerdict {
 				paths++
 				results = append(results, result{"free", x.Pos(), ""})
 				return
+			case *ssa.Store:
+				if vv := env.resolve(x.Val); (vv == s.errVal || alias[vv]) && state != 2 {
+					if _, isFree := x.Addr.(*ssa.FreeVar); isFree {
+						storedTo = x.Addr
+						paths++
+						results = append(results, result{"stored", x.Pos(), ""})
+						state = 2
+					}
+				}
 			case *ssa.Jump:
 				a.enter(b, b.Succs[0], env, visited, state, depth, s, walk)
 				return
@@ -378,7 +405,7 @@ func (a *errAnalyzer) analyse(s *errSite) errVerdict {
 				a.enter(b, b.Succs[1], env, visited, fState, depth, s, walk)
 				return
 			case ssa.CallInstruction:
-				if x == s.call && !(b == startBlock && i < startIdx) {
+				if s.call != nil && x == s.call && !(b == startBlock && i < startIdx) {
 					// came back to the producing call
 					paths++
 					switch state {
@@ -398,10 +425,17 @@ func (a *errAnalyzer) analyse(s *errSite) errVerdict {
 	if paths > a.maxPaths {
 		return errVerdict{kind: "undecided", detail: "too many paths", pos: s.pos}
 	}
-	nRet, nSw, nUn, nFree := 0, 0, 0, 0
-	var first result
+	nRet, nSw, nUn, nFree, nRepl, nStored := 0, 0, 0, 0, 0, 0
+	var first, firstRepl result
 	for _, r := range results {
 		switch r.kind {
+		case "replaced":
+			if nRepl == 0 {
+				firstRepl = r
+			}
+			nRepl++
+		case "stored":
+			nStored++
 		case "returns-err":
 			nRet++
 		case "swallowed":
@@ -419,9 +453,14 @@ func (a *errAnalyzer) analyse(s *errSite) errVerdict {
 		}
 	}
 	v.classes = uniq(classes)
+	v.storedTo = storedTo
 	switch {
 	case nSw > 0:
 		v.kind, v.detail, v.pos = "swallowed", first.why, first.pos
+	case nRepl > 0:
+		v.kind, v.detail, v.pos = "replaced", firstRepl.why, firstRepl.pos
+	case nStored > 0 && nUn == 0:
+		v.kind, v.detail, v.pos = "stored", "stored into a variable of the enclosing function", s.pos
 	case nUn > 0 && nRet == 0:
 		v.kind, v.detail, v.pos = "dropped", first.why, first.pos
 	case nUn > 0:
@@ -444,7 +483,7 @@ func (a *errAnalyzer) enter(from, to *ssa.BasicBlock, env pathEnv, visited map[*
 		return
 	}
 	// allow each block at most twice per path (once is enough to see a loop back to the call)
-	if visited[to] >= 1 && to != s.call.Block() {
+	if visited[to] >= 1 && (s.call == nil || to != s.call.Block()) {
 		return
 	}
 	if visited[to] >= 2 {
@@ -530,6 +569,42 @@ func sitesCalling(c *Ctx, pred func(callee *types.Func, ci ssa.CallInstruction) 
 					continue
 				}
 				out = append(out, &errSite{fn: fn, call: ci, callee: callee, errVal: errResult(ci), pos: ci.Pos()})
+			}
+		}
+	}
+	return out
+}
+
+// capturedLoads returns, for an error stored by a closure into a captured variable, the loads of that
+// variable in the enclosing function (each is a new error source to be analysed there).
+func capturedLoads(closure *ssa.Function, fv ssa.Value) []*errSite {
+	free, ok := fv.(*ssa.FreeVar)
+	if !ok || closure.Parent() == nil {
+		return nil
+	}
+	idx := -1
+	for i, f := range closure.FreeVars {
+		if f == free {
+			idx = i
+		}
+	}
+	if idx < 0 {
+		return nil
+	}
+	parent := closure.Parent()
+	var out []*errSite
+	for _, b := range parent.Blocks {
+		for _, in := range b.Instrs {
+			mc, ok := in.(*ssa.MakeClosure)
+			if !ok || mc.Fn != closure || idx >= len(mc.Bindings) {
+				continue
+			}
+			cell := mc.Bindings[idx]
+			// loads of the cell after the closure was created
+			for _, ref := range *cell.Referrers() {
+				if ld, ok := ref.(*ssa.UnOp); ok && ld.Op == token.MUL && isErrorType(ld.Type()) {
+					out = append(out, &errSite{fn: parent, start: ld, errVal: ld, pos: ld.Pos()})
+				}
 			}
 		}
 	}
